@@ -9,10 +9,22 @@ def _(self: "J1939_22", frame_format: "int", cpg_list: "list(Cpg)", src_address:
     modifies(trace)
     # loop 1: the groups, in order
     invariant(1, _i1 <= n, len(data) == psum(cpg_list, _i1), priority == min_prio(cpg_list, _i1), octets(data),
+              # (every group already placed ends inside the frame built so far)
+              forall(lambda j: psum(cpg_list, j) >= 0 and psum(cpg_list, j) + 4 + cpg_list[j]['data_length'] <= len(data), 0, _i1),
               forall(lambda j: group_at(data, cpg_list, j), 0, _i1))
+    # one iteration appends exactly the group's header and data behind what was there (stepping stones for loop 1)
+    body_ensures(1, "C11.frame.step",
+                 lemma(len(data) == at_head(len(data)) + 4 + cpg['data_length']),
+                 lemma(forall(lambda k: data[k] == at_head(data)[k], 0, at_head(len(data)))),
+                 lemma(data[at_head(len(data))] == cpg_header_octet(cpg['tos'], cpg['tf'], cpg['cpgn'], cpg['data_length'], 0)),
+                 lemma(data[at_head(len(data)) + 1] == cpg_header_octet(cpg['tos'], cpg['tf'], cpg['cpgn'], cpg['data_length'], 1)),
+                 lemma(data[at_head(len(data)) + 2] == cpg_header_octet(cpg['tos'], cpg['tf'], cpg['cpgn'], cpg['data_length'], 2)),
+                 lemma(data[at_head(len(data)) + 3] == cpg['data_length']),
+                 lemma(forall(lambda t: data[at_head(len(data)) + 4 + t] == cpg['data'][t], 0, cpg['data_length'])))
     # loop 2: padding up to the next legal CAN FD length
     invariant(2, next_valid_fd_length == fd_len(used), used <= len(data), len(data) <= next_valid_fd_length, octets(data),
               padding_cnt == mn(3, len(data) - used),
+              forall(lambda j: psum(cpg_list, j) >= 0 and psum(cpg_list, j) + 4 + cpg_list[j]['data_length'] <= used, 0, n),
               forall(lambda j: group_at(data, cpg_list, j), 0, n),
               forall(lambda i: pad_at(data, used, i), used, len(data)))
     # exactly one frame
@@ -83,20 +95,21 @@ def _(self: "J1939_22", mid: "MessageId", dest_address: "int", data: "octets", t
     let("flen", old(len(data)))
     modifies(trace)
     invariant(1, octets(data), src_address == mid.source_address,
-              n0 <= len(trace), len(trace) - n0 <= len(cs),
-              len(data) == flen - off[len(trace) - n0],
-              forall(lambda i: data[i] == frame[off[len(trace) - n0] + i], 0, len(data)),
+              lemma(n0 <= len(trace) and len(trace) - n0 <= len(cs)),
+              # the rest of the frame still to be unpacked: everything behind the groups delivered so far
+              lemma(len(data) == flen - off[len(trace) - n0]),
+              lemma(forall(lambda i: data[i] == frame[off[len(trace) - n0] + i], 0, len(data))),
               # (stepping stones for the prover: what the rest of the frame starts with)
-              implies(len(trace) - n0 < len(cs),
-                      data[0] == cpg_header_octet(2, 0, cs[len(trace) - n0]['cpgn'], 0, 0)
-                      and data[1] == cpg_header_octet(2, 0, cs[len(trace) - n0]['cpgn'], 0, 1)
-                      and data[2] == cpg_header_octet(2, 0, cs[len(trace) - n0]['cpgn'], 0, 2)
-                      and data[3] == cs[len(trace) - n0]['data_length']
-                      and len(data) >= 4 + cs[len(trace) - n0]['data_length']),
-              implies(len(trace) - n0 < len(cs),
-                      forall(lambda t: data[4 + t] == cs[len(trace) - n0]['data'][t], 0, cs[len(trace) - n0]['data_length'])),
-              implies(len(trace) - n0 == len(cs) and len(data) > 0, data[0] == 0),
-              # (the delivery predicate, conjunct by conjunct)
+              lemma(implies(len(trace) - n0 < len(cs),
+                            data[0] == cpg_header_octet(2, 0, cs[len(trace) - n0]['cpgn'], 0, 0)
+                            and data[1] == cpg_header_octet(2, 0, cs[len(trace) - n0]['cpgn'], 0, 1)
+                            and data[2] == cpg_header_octet(2, 0, cs[len(trace) - n0]['cpgn'], 0, 2)
+                            and data[3] == cs[len(trace) - n0]['data_length']
+                            and len(data) >= 4 + cs[len(trace) - n0]['data_length'])),
+              lemma(implies(len(trace) - n0 < len(cs),
+                            forall(lambda t: data[4 + t] == cs[len(trace) - n0]['data'][t], 0, cs[len(trace) - n0]['data_length']))),
+              lemma(implies(len(trace) - n0 == len(cs) and len(data) > 0, data[0] == 0)),
+              # the groups delivered so far (the delivery predicate, conjunct by conjunct)
               forall(lambda j: trace[n0 + j].fn == notify and trace[n0 + j].n == 6 and trace[n0 + j].i0 == mid.priority
                      and trace[n0 + j].i2 == mid.source_address and trace[n0 + j].i3 == dest_address
                      and trace[n0 + j].r4 == timestamp, 0, len(trace) - n0),
